@@ -31,3 +31,10 @@ def run(ctx):
     ctx.guarded(r, R.r_axis_roles, R.VOX, "voxel")
     r = ctx.rule("R9", "render_tile_recurse stops the descent through a column of root tiles (`false`) only for a filled tile; an empty tile keeps going, and the z loop stops on `false` only", 3)
     ctx.guarded(r, R.r_keep_going)
+    # this property quantifies over every shape and both backends, so it needs the evaluators it consults to be right
+    ctx.include('C03', 'tiles are skipped on interval evidence', skip=('R6',))
+    ctx.include('C04', 'tiles are rendered with simplified tapes', skip=())
+    ctx.include('C20', "the trace a tile hands down must be the evaluation's own record", skip=())
+    ctx.include('C01', 'voxels are evaluated by the tape evaluators', skip=())
+    ctx.include('C02', 'voxels are evaluated by the native evaluators', skip=())
+    ctx.include('C05', "normals are the gradient evaluators' output", skip=())
